@@ -45,10 +45,11 @@ man = dict(
                source_commits=[], add_only=True),
     engines=[
         dict(name="E1", path="/verif/mc/e1.py", serves_properties=[c["property_id"] for c in checks if c["engine"] == "E1"], kind_free_text="small-scope product explorer driving the public API on every point of a finite input x configuration space"),
+        dict(name="E2", path="/verif/checks/c04.py", serves_properties=[c["property_id"] for c in checks if c["engine"] == "E2"], kind_free_text="aggregation-algebra explorer: every distribution of a small multiset of values over ordered blocks, driven through the public API so that the real block/combine/finalize functions run"),
         dict(name="E3", path="/verif/mc/graphx.py", serves_properties=[c["property_id"] for c in checks if c["engine"] == "E3"], kind_free_text="explicit-state explorer over the order ideals of real flox task graphs (task order, re-execution, pickling)"),
-        dict(name="E4", path="/verif/mc/ilv.py", serves_properties=[c["property_id"] for c in checks if c["engine"] == "E4"], kind_free_text="preemption-bounded line-level interleaving explorer for two real tasks sharing an input"),
-        dict(name="E5", path="/verif/mc/histx.py", serves_properties=[c["property_id"] for c in checks if c["engine"] == "E5"], kind_free_text="BFS over API call histories with state snapshots of flox's process-wide mutable state"),
-        dict(name="E6", path="/verif/mc/planx.py", serves_properties=[c["property_id"] for c in checks if c["engine"] == "E6"], kind_free_text="planner / graph reachability explorer (cohorts, dependency closures, provenance data)"),
+        dict(name="E4", path="/verif/mc/ilv.py", serves_properties=["C03", "C13"], kind_free_text="preemption-bounded line-level interleaving explorer for two real tasks sharing an input"),
+        dict(name="E5", path="/verif/checks/c14.py", serves_properties=[c["property_id"] for c in checks if c["engine"] == "E5"], kind_free_text="explorer of API call histories (fresh interpreter per prefix, snapshots of flox's process-wide mutable state) and of co-computed lazy results"),
+        dict(name="E6", path="/verif/checks/c09.py", serves_properties=[c["property_id"] for c in checks if c["engine"] == "E6"], kind_free_text="planner / graph reachability explorer (cohorts, dependency closures, provenance data)"),
     ],
     checks=checks,
     notes="All checks: ./check <ID> --tier quick|thorough (VERIF_SEED selects one extra complete stratum, never the verdict on the base bound). Known findings: /verif/known_findings.json. Replays: ./check --replay <file>.",
